@@ -4,7 +4,6 @@ package c18
 import (
 	"encoding/json"
 	"fmt"
-	"os"
 	"regexp"
 	"sort"
 	"strings"
@@ -578,7 +577,7 @@ func TestProp(t *testing.T) {
 		r.Check(run(r, p, nil, compact, mode, &lcg{s: uint64(i)*7919 + uint64(k)}, fmt.Sprintf("fixed/mode%d", mode)))
 	})
 
-	if os.Getenv("C18_SOURCE_PROGRAMS") == "1" { // TEMPORARY guard while the cross-check against the frozen base runs
+	{
 		per := r.Pick(200, 2000)
 		n := int64(len(sourcePrograms)) * 2 * int64(per)
 		r.Subspace(fmt.Sprintf("%d source-level programs (leading-dot numbers, operators) x 2 modes x %d enumerated decision vectors", len(sourcePrograms), per), n, true)
